@@ -13,23 +13,23 @@ def add(pid, test, level, quick, thorough, rule, text, note, technique, design, 
 RAPID = "property-based testing (pgregory.net/rapid) against a sorted-map reference model"
 
 add("C01", "TestC01", "exploration",
-    dict(cases=40000, shards=8, extra=[dict(test="TestC01Large", shards=9)]),
-    dict(cases=600000, shards=16, timeout_s=3000, extra=[dict(test="TestC01Large", shards=14)]),
+    dict(cases=40000, shards=8, extra=[dict(test="TestC01Large", shards=9), dict(test="TestC01Regular", shards=4)]),
+    dict(cases=600000, shards=16, timeout_s=3000, extra=[dict(test="TestC01Large", shards=14), dict(test="TestC01Regular", shards=8, timeout_s=3000)]),
     "cases = deterministic large shapes (70000-100000 keys: > 65535 nodes and leaves, 257 big nodes, short-table sizes 8-10, > 64 KiB of var-len values) + (key set from families K1..K7/Krand/Kshort) x (values nil|distinct|runs|aba|random|pairdup|const) x 14 encoders x 81 option structs x {fresh, Unmarshal(Marshal), proto round trip}; a case is non-trivial when it retains >= 2 keys and has a stored step, a key that is a prefix of another, or a byte >= 0x80; distinct = FNV-64 of the canonical case",
     "Generated-input search: every retained key of every generated trie is looked up with Get and GetID and compared with the model's retained-key rule computed on independently encoded values. Shapes are constructed so that 257-bit nodes, short nodes of each table size, long steps, prefix keys, the empty key and bytes >= 0x80 occur by design; the class histogram in the evidence shows how often. Not a proof: absence of counterexamples in the explored space.",
     "Trusted: the reference model and the independent value encodings in the harness. Not reached: > 10^5 keys, node ids near 2^31, 32-bit platforms.",
     RAPID, "DESIGN.md §4 C01")
 
 add("C02", "TestC02", "exploration",
-    dict(cases=40000, shards=8, extra=[dict(test="TestC02Exhaustive", shards=8)]), dict(cases=600000, shards=16, timeout_s=3000, extra=[dict(test="TestC02Exhaustive", shards=16, timeout_s=3000)]),
+    dict(cases=40000, shards=8, extra=[dict(test="TestC02Exhaustive", shards=8), dict(test="TestC02Regular", shards=4)]), dict(cases=600000, shards=16, timeout_s=3000, extra=[dict(test="TestC02Exhaustive", shards=16, timeout_s=3000), dict(test="TestC02Regular", shards=8, timeout_s=3000)]),
     "cases as C01 with values forced to contain runs of equal neighbours (geometric run lengths, pair duplication, constant, A/B/A alphabets); non-trivial = at least one de-duplicated key shares a longer prefix with the NEXT retained key than with its own retained predecessor (its bits lead into the wrong neighbour's sub-trie)",
     "Generated-input search: RangeGet on every input key (retained or dropped) must return the value supplied for it, in every option combination, fresh and reloaded.",
     "Trusted: reference model (cover index computed from independently encoded values).",
     RAPID, "DESIGN.md §4 C02")
 
 add("C03", "TestC03", "exploration",
-    dict(cases=12000, shards=8, extra=[dict(test="TestC03Exhaustive", shards=8)]),
-    dict(cases=200000, shards=16, timeout_s=3000, extra=[dict(test="TestC03Exhaustive", shards=16, timeout_s=3000)],
+    dict(cases=12000, shards=8, extra=[dict(test="TestC03Exhaustive", shards=8), dict(test="TestC03Regular", shards=4)]),
+    dict(cases=200000, shards=16, timeout_s=3000, extra=[dict(test="TestC03Exhaustive", shards=16, timeout_s=3000), dict(test="TestC03Regular", shards=8, timeout_s=3000)],
          fuzz=dict(target="FuzzC03", seconds=240)),
     "rapid part: Complete tries (all three spellings) x dedup x values x load state, queried with Q(keys) = keys, every one-bit/one-byte mutation, proper prefixes, 0x00/0xff extensions, out-of-range strings, '', drawn strings; exhaustive part: every key set of bounded size over a small nibble-diverse alphabet x dedup x every neighbour-equality pattern of values x every universe string as query; non-trivial = an absent query sharing >= 1 byte with a neighbouring retained key (or an exhaustive-universe case with >= 2 keys)",
     "Generated-input search plus exhaustive enumeration of a small universe: Get/GetID/RangeGet/Search on every query are compared with the model (exact membership, floor, strict neighbours).",
@@ -37,13 +37,13 @@ add("C03", "TestC03", "exploration",
     RAPID + " + exhaustive small-universe enumeration (+ native go fuzzing in thorough)", "DESIGN.md §4 C03")
 
 add("C09", "TestC09", "exploration",
-    dict(cases=40000, shards=8, extra=[dict(test="TestC09Exhaustive", shards=8)]), dict(cases=600000, shards=16, timeout_s=3000, extra=[dict(test="TestC09Exhaustive", shards=16, timeout_s=3000)]),
+    dict(cases=40000, shards=8, extra=[dict(test="TestC09Exhaustive", shards=8), dict(test="TestC09Regular", shards=4)]), dict(cases=600000, shards=16, timeout_s=3000, extra=[dict(test="TestC09Exhaustive", shards=16, timeout_s=3000), dict(test="TestC09Regular", shards=8, timeout_s=3000)]),
     "cases as C01 with values always supplied, all modes, fresh/reloaded; every retained key is a query; non-trivial = >= 3 retained keys on a trie with a 257-bit node, a short node or a prefix key",
     "Generated-input search: Search(k) for every retained key k must return (value of previous retained key | nil, own value, value of next retained key | nil).",
     "Trusted: reference model.", RAPID, "DESIGN.md §4 C09")
 
 add("C10", "TestC10", "exploration",
-    dict(cases=12000, shards=8, extra=[dict(test="TestC10Exhaustive", shards=8)]), dict(cases=200000, shards=16, timeout_s=3000, extra=[dict(test="TestC10Exhaustive", shards=16, timeout_s=3000)], fuzz=dict(target="FuzzC10", seconds=240)),
+    dict(cases=12000, shards=8, extra=[dict(test="TestC10Exhaustive", shards=8), dict(test="TestC10Regular", shards=4)]), dict(cases=200000, shards=16, timeout_s=3000, extra=[dict(test="TestC10Exhaustive", shards=16, timeout_s=3000), dict(test="TestC10Regular", shards=8, timeout_s=3000)], fuzz=dict(target="FuzzC10", seconds=240)),
     "cases as C01 (all modes, nil values, empty and single-key tries, fresh/reloaded) queried with Q(keys) plus 64 KiB strings of 0x00/0xff and a 70 000 byte string; non-trivial = a false positive was observed or an absent query shares a prefix with a retained key",
     "Generated-input search over relations that need no per-mode expectation: no panic; Get.found <=> GetID>=0 <=> Search.eq != nil; Get.found => RangeGet.found with the same value; every returned value was supplied at build time.",
     "Trusted: harness bookkeeping of supplied values. Non-termination is only detected through the test deadline (reported as inconclusive, exit 2).",
@@ -62,19 +62,19 @@ add("C14", "TestC14", "exploration",
     "Trusted: reference model.", "differential property-based testing (rapid)", "DESIGN.md §4 C14")
 
 add("C18", "TestC18", "exploration",
-    dict(cases=24000, shards=8, extra=[dict(test="TestC18Exhaustive", shards=8)]), dict(cases=400000, shards=16, timeout_s=3000, extra=[dict(test="TestC18Exhaustive", shards=16, timeout_s=3000)]),
+    dict(cases=24000, shards=8, extra=[dict(test="TestC18Exhaustive", shards=8), dict(test="TestC18Regular", shards=4)]), dict(cases=400000, shards=16, timeout_s=3000, extra=[dict(test="TestC18Exhaustive", shards=16, timeout_s=3000), dict(test="TestC18Regular", shards=8, timeout_s=3000)]),
     "cases as C01 plus tries loaded from generated legacy streams (8 layouts); non-trivial = >= 4 levels and a leaf above the last level",
     "Generated-input search: KeyCnt equals the model's retained-key count; per-level totals are consistent and monotone; (0,0)/(1,1) for empty/single; Stat unchanged by a round trip; KeyCnt preserved by legacy streams; cross-check: String() renders NodeCnt lines.",
     "Trusted: reference model; legacy writers (validated byte-for-byte against the archived fixtures).", RAPID, "DESIGN.md §4 C18")
 
 add("C19", "TestC19", "exploration",
-    dict(cases=16000, shards=8), dict(cases=40000, shards=16, timeout_s=3000),
+    dict(cases=16000, shards=8, extra=[dict(test="TestC19Regular", shards=4)]), dict(cases=40000, shards=16, timeout_s=3000, extra=[dict(test="TestC19Regular", shards=8, timeout_s=3000)]),
     "cases as C01 with integer (or no) values, weighted towards regular trees that produce short nodes of a targeted table size and towards 257-bit nodes; non-trivial = the trie contains at least one table-compressed short node",
     "Generated-input search: String() must not panic, must render every node id exactly once, its leaf lines top to bottom must carry the retained values in key order, the labels and steps on the path to the j-th leaf must spell the bits of the j-th retained key (documented line format <label>-><id>+<step>*<fanout>=<value>), and a reloaded trie must render identically.",
     "Trusted: the rendering grammar of openacid/low/tree and the documented line format.", RAPID, "DESIGN.md §4 C19")
 
 add("C04", "TestC04", "exploration",
-    dict(cases=12000, shards=8), dict(cases=200000, shards=16, timeout_s=3000, fuzz=dict(target="FuzzC04", seconds=180)),
+    dict(cases=12000, shards=8, extra=[dict(test="TestC04Regular", shards=4)]), dict(cases=200000, shards=16, timeout_s=3000, extra=[dict(test="TestC04Regular", shards=8, timeout_s=3000)], fuzz=dict(target="FuzzC04", seconds=180)),
     "Complete tries (fresh, reloaded, loaded from generated 0.5.10/0.5.11 allpref streams; all encoders incl. String16) x drawn scans (API ScanFrom/ScanFromTo/NewIter, start and end from Q(keys) or drawn, both inclusivities, with/without values, callback stop point) + a sweep with every string of Q(keys) as start + full scans; refusal clause: every non-Complete effective mode x dedup x with/without values (12 classes, counted); non-trivial = a scan that yields >= 3 entries from an absent or exclusive start on a trie with a stored inner prefix or a 257-bit node (refusal: >= 2 keys and >= 1 step)",
     "Generated-input search: each scan must yield exactly the model's slice of retained entries (keys bytewise, each once, ascending, value bytes equal to the independent reference encoding, nil when not requested/supplied), invoke the callback exactly once per entry, stop at the stop point, and report exhaustion on 3 further calls. On a non-Complete trie a scan must panic before yielding anything, or yield exactly the model's answer (possible only when the trie happens to hold complete keys).",
     "Trusted: reference model, reference value encodings, legacy 0.5.10 writer (validated against the archive).", RAPID, "DESIGN.md §4 C04")
@@ -117,7 +117,7 @@ add("C20", "TestC20", "exploration",
     "Trusted: legacy writers for the legacy layouts.", "snapshot + differential property-based testing (rapid)", "DESIGN.md §4 C20")
 
 add("C12", "TestC12", "exploration",
-    dict(cases=24000, shards=8), dict(cases=600000, shards=16, timeout_s=3000),
+    dict(cases=24000, shards=8, extra=[dict(test="TestC12Regular", shards=4)]), dict(cases=600000, shards=16, timeout_s=3000, extra=[dict(test="TestC12Regular", shards=8, timeout_s=3000)]),
     "sorted record sets (keys K1..K7/Krand with arbitrary bytes, distinct payloads), either one strictly increasing offset per key (Get) or block offsets with block size 2..64 and drawn gaps (RangeGet); reader = map offset -> block that returns a record only when the key is in that block; queries = all keys and Q(keys); non-trivial = the reader had to reject at least one lookup (the underlying trie returned an offset for an absent key)",
     "Generated-input search against an exact map model: every indexed key returns its own record, every other string is not found.",
     "Trusted: the verifying reader written in the harness.", RAPID.replace("sorted-map", "map"), "DESIGN.md §4 C12")
